@@ -419,7 +419,11 @@ fn parse_type_modifier(
     position: TypePosition,
     context: &Context,
 ) -> TyperResult<ir::TypeModifier> {
-    let tyl = context.module.type_registry.get_type_layer(applied_type);
+    // The type may come from a typedef that already carries modifiers
+    // The requirements of the new modifiers are on the type below them and they may not conflict with the old ones
+    let (unmodified_type, base_modifier) =
+        context.module.type_registry.extract_modifier(applied_type);
+    let tyl = context.module.type_registry.get_type_layer(unmodified_type);
 
     let mut full_modifier = ir::TypeModifier::new();
     for modifier in &modifiers.modifiers {
@@ -444,7 +448,7 @@ fn parse_type_modifier(
                 full_modifier.volatile = true;
             }
             ast::TypeModifier::RowMajor => {
-                if full_modifier.column_major {
+                if full_modifier.column_major || base_modifier.column_major {
                     return Err(TyperError::ModifierConflict(
                         modifier.node,
                         modifier.location,
@@ -461,7 +465,7 @@ fn parse_type_modifier(
                 full_modifier.row_major = true;
             }
             ast::TypeModifier::ColumnMajor => {
-                if full_modifier.row_major {
+                if full_modifier.row_major || base_modifier.row_major {
                     return Err(TyperError::ModifierConflict(
                         modifier.node,
                         modifier.location,
@@ -478,7 +482,7 @@ fn parse_type_modifier(
                 full_modifier.column_major = true;
             }
             ast::TypeModifier::Unorm => {
-                if full_modifier.snorm {
+                if full_modifier.snorm || base_modifier.snorm {
                     return Err(TyperError::ModifierConflict(
                         modifier.node,
                         modifier.location,
@@ -486,7 +490,7 @@ fn parse_type_modifier(
                     ));
                 }
                 if !matches!(
-                    context.module.type_registry.extract_scalar(applied_type),
+                    context.module.type_registry.extract_scalar(unmodified_type),
                     Some(ir::ScalarType::Float32)
                 ) {
                     return Err(TyperError::ModifierRequiresFloatType(
@@ -498,7 +502,7 @@ fn parse_type_modifier(
                 full_modifier.unorm = true;
             }
             ast::TypeModifier::Snorm => {
-                if full_modifier.unorm {
+                if full_modifier.unorm || base_modifier.unorm {
                     return Err(TyperError::ModifierConflict(
                         modifier.node,
                         modifier.location,
@@ -506,7 +510,7 @@ fn parse_type_modifier(
                     ));
                 }
                 if !matches!(
-                    context.module.type_registry.extract_scalar(applied_type),
+                    context.module.type_registry.extract_scalar(unmodified_type),
                     Some(ir::ScalarType::Float32)
                 ) {
                     return Err(TyperError::ModifierRequiresFloatType(
